@@ -19,6 +19,7 @@ type Profile struct {
 	Reopen, ReadOnly, Abort  int // percentages
 	Oversize                 int // percentage of puts that exceed the segment
 	IdxHeavy                 bool // many LSet / LTrim calls per transaction
+	SmallRanks               bool     // sorted sets of at most three members, rank arguments 1..3 / -1..-2
 	Members                  []string // set members (default: m1 m2 m3 m|4 and the empty member)
 	Buckets, Keys, Vals      []string
 	NoSPop, NoSMove          bool
@@ -78,6 +79,9 @@ func (g *Gen) idx() int {
 		default:
 			return 1 << 40
 		}
+	}
+	if g.p.SmallRanks {
+		return []int{1, 2, 2, 3, -1, -2}[g.r.Intn(6)]
 	}
 	return g.r.Range(-7, 7)
 }
@@ -352,6 +356,9 @@ func (g *Gen) score() string {
 }
 
 func (g *Gen) zkey() string {
+	if g.p.SmallRanks {
+		return hx([]byte(g.pick([]string{"a", "b", "c"})))
+	}
 	if g.r.Chance(1, 8) {
 		return "x"
 	}
